@@ -353,6 +353,20 @@ func checkTally(r *Run) {
 				return isFloat(v) && derivesFrom(v, func(y ssa.Value) bool { return strings.HasSuffix(pathOf(y).FieldString(), "AllegationPercentage") })
 			})
 	}
+	// the quorum both shares are divided by is the ceiling of active * votePercentage / decimals
+	ceilOK := false
+	allInstrs(fn, func(ins ssa.Instruction) {
+		bo, ok := ins.(*ssa.BinOp)
+		if !ok || bo.Op != token.QUO || !isFloat(bo) || !fromCounter(yesC)(bo.X) {
+			return
+		}
+		if derivesFrom(bo.Y, func(y ssa.Value) bool { c, isC := y.(*ssa.Call); return isC && calleeName(c) == "math.Ceil" }) &&
+			derivesFrom(bo.Y, func(y ssa.Value) bool { return strings.HasSuffix(pathOf(y).FieldString(), "ValidatorVotePercentage") }) {
+			ceilOK = true
+		}
+	})
+	r.Check(ceilOK, "C19.tally", name, "quorum = ceil(active * ValidatorVotePercentage / decimals)",
+		"the share denominator is rounded up", "the vote quorum is no longer the ceiling of the configured share of the active set: fewer votes than configured decide a verdict", p.pos(fn.Pos()))
 	gY := shareGuard("yes share > allegation percentage", yesC)
 	gN := shareGuard("no share > 1 - allegation percentage", noC)
 	guiltySinks := callsTo(fnCreateSusp, fnDelegMinus, fnDelayUnst)
